@@ -8,4 +8,4 @@ Extraction "model_valid.ml"
   RfcValid.rfc_valid RfcValid.rfc_types RfcValid.rfc_keys RfcValid.rfc_single RfcValid.rfc_keyuniq RfcValid.rfc_llval
   RfcValid.rfc_case RfcValid.rfc_mand RfcValid.rfc_mand_choice RfcValid.rfc_min RfcValid.rfc_max RfcValid.rfc_unique
   RfcValid.placed RfcValid.vschema_ok RfcValid.prune RfcValid.rules_hold RfcValid.no_empty_np
-  ValidateImpl.impl_validate ValidateImpl.impl_parse_validate ValidateImpl.erase ValidateImpl.mark_new ValidateImpl.nodflt ValidateImpl.explicit ValidateImpl.fresh ValidateImpl.class_ok ValidateImpl.all_classes.
+  ValidateImpl.impl_validate ValidateImpl.impl_parse_validate ValidateImpl.erase ValidateImpl.mark_new ValidateImpl.nodflt ValidateImpl.explicit ValidateImpl.fresh ValidateImpl.hist_ok ValidateImpl.impl_validate_multi ValidateImpl.idref_check ValidateImpl.class_ok ValidateImpl.all_classes.
